@@ -415,6 +415,17 @@ iwrc jbl_clone_into_pool(struct jbl *src, struct jbl **targetp, struct iwpool *p
   jbl->bn.ptr = (char*) jbl + sizeof(*jbl);
   memcpy(jbl->bn.ptr, src->bn.ptr, src->bn.size);
   jbl->bn.freefn = 0;
+  // The struct copy above took over the write state of `src`: a writable source left the clone writable with the
+  // SOURCE's buffer (pbuf), so a jbl_set_*() on either document changed the other one (and the clone kept a pointer
+  // the source may realloc() or free()). The clone is a read-only document over its own copy in the pool.
+  jbl->bn.pbuf = 0;
+  jbl->bn.alloc_size = 0;
+  jbl->bn.used_size = 0;
+  jbl->bn.writable = FALSE;
+  jbl->bn.dirty = FALSE;
+  jbl->bn.allocated = FALSE;
+  jbl->bn.pre_allocated = FALSE;
+  jbl->bn.userdata_freefn = 0;
   *targetp = jbl;
   return 0;
 }
